@@ -8,7 +8,8 @@ Tie: every history runs in a forked child of an interpreter that imported period
 touched nothing lazy; the driver enumerates the reachable control states of every registration
 group and emits one shortest history per (state, event); plus directed and random long histories
 across groups (reads / hasattr through element, isotope, ion, isotope ion; imports; calculator
-calls; explicit init of the public table).  Every event's served value and a final digest of all
+calls; explicit init of the public table; calculator calls at several scalar wavelengths on the lazily attached
+energy-dependent tables; pickles of served objects taken and loaded under different first-touch orders).  Every event's served value and a final digest of all
 lazy attributes of the probe atoms are compared with the model (value tokens one-to-one with
 digests) and – by the oracle – with the canonical values of a pristine child.
 """
@@ -16,7 +17,7 @@ from __future__ import annotations
 
 from ..common import Run, InfraError, import_repo
 from ..state_hist import LAZY_ATTRS
-from ..state_lazy import Lab, PROBES, CALCS, oracle, compare
+from ..state_lazy import Lab, PROBES, CALCS, WL_CALCS, PICKLE_ATTRS, PICKLE_KEYS, oracle, compare, init_group, group_of
 
 RULE = ("one case = one history (sequence of first-touch events) run in a fresh forked interpreter; "
         "non-trivial when it contains an event other than a plain read through an element, or at "
@@ -47,6 +48,60 @@ CORPUS = [
     [("import", "fasta"), ("read", "public", (1, 2, 0), "neutron")],
     [("has", "public", (26, 56, 2), "K_alpha"), ("read", "public", (29, 0, 0), "K_beta1_units")],
 ]
+
+
+def wavelength_histories(rng):
+    """calculator calls on the lazily attached energy-dependent tables, twice with different (some nearly
+    equal) scalar wavelengths in one process, in both orders, through the compound and the isotope route"""
+    hs = []
+    ev = lambda c: ("calc", c[0], list(c[1]))  # noqa: E731
+    for name in sorted({c[0] for c in WL_CALCS}):
+        cs = [c for c in WL_CALCS if c[0] == name]
+        for a in cs:
+            for b in cs:
+                if a is not b:
+                    hs.append([ev(a), ev(b)])
+    for _ in range(10):
+        hs.append([ev(rng.choice(WL_CALCS)) for _ in range(rng.randint(3, 6))])
+    return hs
+
+
+def pickled_value_histories(run, lab, rng):
+    """the served lazy values that are objects (x-ray and neutron records, form factors, activation and structure
+    records), pickled in one process and loaded in another, each under its own first-touch order: the restored
+    value, and what its methods compute, is the value the canonical order serves.
+    Returns (dump histories, function building the load histories from their outcomes)."""
+    targets = [(k, a) for k in PICKLE_KEYS for a in PICKLE_ATTRS
+               if lab.canon[(k, a)][0] == "val" and lab.kind[(k, a)] == "mutable"]
+    dumps = []
+    for k, a in targets:
+        dumps.append((k, a, [("dumps", "public", k, a)]))
+        if k != (k[0], 0, 0):
+            dumps.append((k, a, [("read", "public", (k[0], 0, 0), a), ("dumps", "public", k, a)]))
+
+    def inits_of(a):
+        gi = group_of(lab, a)
+        return [n for n in lab.cfg["inits"] if init_group(lab, n) == gi]
+
+    def loads(outs):
+        hs = []
+        for (k, a, h), o in zip(dumps, outs):
+            if not (isinstance(o, list) and o[len(h) - 1][0] == "val"):
+                continue      # the dump history itself is judged like a read
+            blob = o[len(h) - 1][2]
+            ld = ("loads", "public", k, a, blob)
+            el = (k[0], 0, 0)
+            pres = [[], [("read", "public", el, a)], [("read", "public", k, a)], [("has", "public", k, a)],
+                    [("read", "public", (29, 0, 0), a)]]
+            if PICKLE_ATTRS[a]:
+                pres.append([("import", PICKLE_ATTRS[a])])
+            pres += [[("init", n, "public")] for n in inits_of(a)]
+            pres.append([public_events(lab, rng) for _ in range(rng.randint(1, 3))])
+            if len(h) > 1:       # the second dump order: a sample of the load orders
+                pres = [pres[0]] + rng.sample(pres[1:], 2)
+            hs += [p + [ld] for p in pres]
+        return hs
+    return [h for _, _, h in dumps], loads
 
 
 # first-touch histories: the FIRST event of the process is a read / hasattr of one single lazy attribute name
@@ -98,7 +153,7 @@ def execute(run: Run, lab: Lab, histories, corr, tag):
         if isinstance(o, dict):
             raise InfraError("history child crashed: %s" % str(o)[-400:])
         run.count(key=repr(h[:-1]), nontrivial=nontrivial(h[:-1]), tag=tag,
-                  sample=repr(h[:-1]) if len(h) < 6 else None)
+                  sample=repr(h[:-1]) if len(h) < 6 and not any(e[0] in ("loads", "dumps") for e in h) else None)
         for e in h[:-1]:
             run.dist["ev:" + e[0]] = run.dist.get("ev:" + e[0], 0) + 1
         for i, what, keys in oracle(lab, h, o)[:3]:
@@ -107,6 +162,7 @@ def execute(run: Run, lab: Lab, histories, corr, tag):
         if d:
             run.disagree(corr, dict(history=h[:d[0] + 1]), r[d[0]][:3], o[d[0]] if d[0] < len(h) - 1 else "digest",
                          what=d[1])
+    return outs
 
 
 def run(run: Run) -> int:
@@ -122,6 +178,9 @@ def run(run: Run) -> int:
                                         "histories (%s); histories are judged by the oracle only" % lab.unreadable)
         execute(run, lab, CORPUS, "lazy-corpus", "corpus")
         execute(run, lab, FIRST_TOUCH, "lazy-first-touch", "first-touch")
+        execute(run, lab, wavelength_histories(run.rng), "lazy-wavelengths", "wavelengths")
+        dump_hs, load_hs = pickled_value_histories(run, lab, run.rng)
+        execute(run, lab, load_hs(execute(run, lab, dump_hs, "lazy-pickled", "pickled:dumps")), "lazy-pickled", "pickled:loads")
         total_states = 0
         for gi in range(len(lab.cfg["groups"]) if lab.model_ok else 0):
             n, hs = lab.closure_histories(gi, 0)
